@@ -804,3 +804,31 @@ func c08ServerProbe(c *core.Ctx, nt *types.Named) {
 	}
 	c.Check(okLater, tk+".RecvMsg:later-calls-eof", fn.Pos(), "a later call on a single-request method returns io.EOF before reading", "no 'already received ⇒ io.EOF' exit before the first read")
 }
+
+// singleResponseProbes runs the C08/R1 obligations (three-way discrimination
+// after the single-response probe) for every client stream type. It is also a
+// necessary condition of C02 (the final status is not replaced by success) and
+// of C07 (a reply cut before the end of the trailer is a failed call): the probe
+// is where a terminal transport error of a single-response call surfaces.
+func singleResponseProbes(c *core.Ctx) int {
+	p := c.P
+	n := 0
+	for _, nt := range streamTypes(p, "ClientStream", "RecvMsg") {
+		fam := methodFamily(p, nt, "RecvMsg")
+		if len(fam) == 0 {
+			continue
+		}
+		hasRecv := false
+		for _, f := range fam {
+			if len(msgReceives(f, nt.Obj().Name())) > 0 {
+				hasRecv = true
+			}
+		}
+		if !hasRecv {
+			continue
+		}
+		n++
+		c08ClientType(c, nt, fam)
+	}
+	return n
+}
